@@ -151,8 +151,25 @@ func ExecAndValidate(run *core.Run, scripts []Script, o ExecOpts) *Outcome {
 		}
 		next += progressed
 	}
-	// 2. validate; on a rejection report the script, drop it and validate the rest
-	for len(segs) > 0 && len(out.Rejected) < 8 {
+	// 2. validate; on a rejection report the script, drop it and validate the rest.  Work is done in chunks; a chunk
+	// whose validation does not finish in time is split, a single script that cannot be decided in time is
+	// counted as undecided (never as a verdict).
+	var queue [][]seg
+	for i := 0; i < len(segs); i += 120 {
+		queue = append(queue, segs[i:min(i+120, len(segs))])
+	}
+	undecided := 0
+	defer func() {
+		if undecided > 0 {
+			run.Note("undecided_scripts_"+o.Name, undecided)
+		}
+	}()
+	for len(queue) > 0 && len(out.Rejected) < 8 {
+		segs := queue[0]
+		queue = queue[1:]
+		if len(segs) == 0 {
+			continue
+		}
 		var buf bytes.Buffer
 		total := 0
 		for _, s := range segs {
@@ -164,7 +181,16 @@ func ExecAndValidate(run *core.Run, scripts []Script, o ExecOpts) *Outcome {
 		}
 		tf := filepath.Join(run.Work, fmt.Sprintf("%s-validate.ndjson", o.Name))
 		os.WriteFile(tf, buf.Bytes(), 0o644)
-		v, err := run.ValidateTrace(o.TraceSpec, tf, total, 20*time.Minute)
+		v, err := run.ValidateTrace(o.TraceSpec, tf, total, 6*time.Minute)
+		if err != nil && v != nil && v.Res != nil && v.Res.Status == "timeout" {
+			if len(segs) == 1 {
+				undecided++
+				run.Logf("validation of script %d of %s did not finish in time: undecided", segs[0].script, o.Name)
+				continue
+			}
+			queue = append([][]seg{segs[:len(segs)/2], segs[len(segs)/2:]}, queue...)
+			continue
+		}
 		if err != nil {
 			run.Infra("%v", err)
 			return out
@@ -174,7 +200,7 @@ func ExecAndValidate(run *core.Run, scripts []Script, o ExecOpts) *Outcome {
 		if v.Accepted {
 			out.Accepted += len(segs)
 			run.AddTraces(len(segs))
-			break
+			continue
 		}
 		// locate the script holding line HighWater+1
 		bad := v.HighWater + 1
@@ -217,7 +243,7 @@ func ExecAndValidate(run *core.Run, scripts []Script, o ExecOpts) *Outcome {
 		run.Violate(core.Violation{Clause: clause, Scenario: scen, Replay: p,
 			Detail: fmt.Sprintf("the execution recorded from the real code is not a behaviour of %s.tla: line %d of %d cannot be explained: %s\n(preceding lines: %s)",
 				o.TraceSpec, rej.Line, len(s.lines), string(rej.Event), strings.Join(rej.Prev, " "))})
-		segs = segs[k+1:]
+		queue = append([][]seg{segs[k+1:]}, queue...)
 	}
 	return out
 }
